@@ -169,6 +169,27 @@ class Rat:
     def eq(self, o) -> bool:
         return (self.n * o.d - o.n * self.d).is_zero()
 
+    def cancel_content(self) -> "Rat":
+        """Divide numerator and denominator by the monomial that divides EVERY term of both (w / (w + w*E) -> 1 / (1 + E)) and by the
+        common rational factor of the denominator's leading coefficient.  No polynomial GCD: only what is common to all terms."""
+        terms = list(self.n.t) + list(self.d.t)
+        if not terms or not self.n.t:
+            return self
+        common = None
+        for m in terms:
+            d_ = dict(m)
+            if common is None:
+                common = dict(d_)
+            else:
+                common = {a: min(e, d_[a]) for a, e in common.items() if a in d_ and (e > 0) == (d_[a] > 0)}
+            if not common:
+                return self
+        common = {a: e for a, e in common.items() if e != 0}
+        if not common:
+            return self
+        inv = tuple(sorted((a, -e) for a, e in common.items()))
+        return Rat(Poly({_mono_mul(m, inv): c for m, c in self.n.t.items()}), Poly({_mono_mul(m, inv): c for m, c in self.d.t.items()}))
+
     def is_zero(self):
         return self.n.is_zero()
 
@@ -283,6 +304,7 @@ class Atoms:
         return Rat.atom(nm, q)
 
     def log(self, r: Rat) -> Rat:
+        r = r.cancel_content()
         # log of a positive monomial in exp-atoms: linear in their arguments
         mc = r.monomial()
         if mc is not None and mc[1] > 0:
@@ -304,7 +326,8 @@ class Atoms:
         # too wherever the logarithm is defined):  log(e^x / (1 + e^x)) = x - log(1 + e^x)
         def pos_exp_mono(p):
             st = p.single_term()
-            return st is not None and st[1] > 0 and st[0] and all(a.startswith("exp[") or a.startswith("exp#") for a, _ in st[0])
+            # a positive constant is the empty product of exponentials:  log(1 / (1 + e^x)) = -log(1 + e^x)
+            return st is not None and st[1] > 0 and all(a.startswith("exp[") or a.startswith("exp#") for a, _ in st[0])
         if not r.n.is_zero() and (pos_exp_mono(r.n) != pos_exp_mono(r.d)) and (pos_exp_mono(r.n) or pos_exp_mono(r.d)) and \
                 r.n.single_term() != r.d.single_term():
             ln = self.log(Rat(r.n)) if pos_exp_mono(r.n) else self._opaque("log", Rat(r.n))
